@@ -53,9 +53,18 @@ _Bool __CPROVER_uninterpreted_dle(double, double);
 _Bool __CPROVER_uninterpreted_deq(double, double);
 static inline double d_frombits(unsigned long u) { union { double d; unsigned long u; } x; x.u = u; return x.d; }
 #define D_SIGN 0x8000000000000000UL
+#ifdef VERIF_FP_COMM
+/* second-stage model, used by ./check ONLY to re-examine obligations that failed under the plain model: '+' and '*' additionally
+ * commutative (an exact IEEE law), stated as an axiom instance at every application.  10x slower, hence not the default. */
+static inline double d_mul(double a, double b)
+{ double r = __CPROVER_uninterpreted_dmul(a, b); __CPROVER_assume(d_bits(r) == d_bits(__CPROVER_uninterpreted_dmul(b, a))); return r; }
+static inline double d_add(double a, double b)
+{ double r = __CPROVER_uninterpreted_dadd(a, b); __CPROVER_assume(d_bits(r) == d_bits(__CPROVER_uninterpreted_dadd(b, a))); return r; }
+#else
 #define d_mul(a, b) __CPROVER_uninterpreted_dmul((a), (b))
-#define d_div(a, b) __CPROVER_uninterpreted_ddiv((a), (b))
 #define d_add(a, b) __CPROVER_uninterpreted_dadd((a), (b))
+#endif
+#define d_div(a, b) __CPROVER_uninterpreted_ddiv((a), (b))
 #define d_eq(a, b) __CPROVER_uninterpreted_deq((a), (b))
 #define D_MUL(a, b) d_mul((a), (b))
 #define D_DIV(a, b) d_div((a), (b))
